@@ -317,8 +317,10 @@ def _merge_database_dicts(*database_dicts):
 
     # Copy to prevent writes to the original dict.
     # A weak copy is sufficient since we only modify two top levels.
+    # Further top level keys are allowed in the first dict and may have any
+    # type (e.g. a version string); they are not modified and kept as is.
     result = {
-        k1: v1.copy()
+        k1: v1.copy() if k1 in ('datasets', 'alias') else v1
         for k1, v1 in database_dicts[0].items()
     }
 
